@@ -121,10 +121,10 @@ def py_tick_moves(h, held, a, b):
 
 
 def cases(tier, seed):
-    hs = HS_QUICK if tier == "quick" else HS_ALL
-    t0s = T0_QUICK if tier == "quick" else T0_ALL
-    for h in hs:
-        for t0 in t0s:
+    # the Python runtime is cheap: both tiers explore every max step and every start time (incl. 1000 s, where a relative
+    # tolerance on times would exceed the 1e-9 s resolution of the property)
+    for h in HS_ALL:
+        for t0 in T0_ALL + ([65536.0] if tier == "thorough" else []):
             yield {"runtime": "py", "h": h, "t0": t0}
     from fv.props import c10_cpp
     yield from c10_cpp.cases(tier, seed)
